@@ -10,7 +10,8 @@
 //!     decoded = bad | (req <more> <oneway> <upgrade> x<method> <params>)
 //!
 //! Observation:
-//!   (obs <status> (out <reply>*) b<tail> b<rest> b<seen>)
+//!   (obs <status> (out <reply>*) b<tail> b<rest> b<seen>)     feed mode: <rest> = bytes left unread in a
+//!                                                              per-step slice (lost by the documented loop)
 //!     status = eof | err | (up x<iface>)
 //!     reply  = (r <continues> <error> <params>) | (raw b<bytes>)
 use crate::rng::Rng;
@@ -407,6 +408,7 @@ pub fn run_case(input: &Sx) -> Sx {
         "feed" => {
             // the documented re-feeding loop (varlink/src/test.rs, examples/ping)
             let mut tail: Vec<u8> = Vec::new();
+            let mut dropped: Vec<u8> = Vec::new();
             let mut iface: Option<String> = None;
             let mut status = sx::atom("eof");
             for c in chunks {
@@ -421,9 +423,10 @@ pub fn run_case(input: &Sx) -> Sx {
                         break;
                     }
                     Ok((t, i)) => {
+                        // the documented protocol: only the returned bytes are fed again; whatever the
+                        // handler left unread in the caller's per-step slice is gone (test.rs, ping)
                         tail = t;
-                        // bytes the handler left in the caller's reader still belong to the stream
-                        tail.extend_from_slice(rd);
+                        dropped.extend_from_slice(rd);
                         iface = i;
                     }
                 }
@@ -436,7 +439,7 @@ pub fn run_case(input: &Sx) -> Sx {
                     status,
                     sx::tagged("out", split_replies(&out)),
                     sx::bs(&tail),
-                    sx::bs(&[]),
+                    sx::bs(&dropped),
                     sx::bs(&seen),
                     sx::tagged("calls", calls),
                     reference(&l[2], &total),
@@ -931,6 +934,18 @@ impl Suite for WireSuite {
                 total.push(0);
                 cases.push(Case { input: mk_case("whole", &cfgs[0], &[total.clone()], &total), tags: vec![format!("nesting:{}", d)] });
             }
+        }
+        // known finding C02-F3: more than the internal buffer behind an upgrading request, one chunk,
+        // through the documented loop
+        {
+            let cfg = &cfgs[1];
+            let v = json!({"method":"org.example.s.Run","upgrade":true,
+                "parameters":{"token":"t0z","script":[{"op":"upgrade"},{"op":"reply","p":{"token":"t0z"}}]}});
+            let mut total = serde_json::to_vec(&v).unwrap();
+            total.push(0);
+            total.extend(std::iter::repeat(b'p').take(9000));
+            cases.push(Case { input: mk_case("feed", cfg, &[total.clone()], &total), tags: vec!["upgrade-oversize-payload".into()] });
+            cases.push(Case { input: mk_case("whole", cfg, &[total.clone()], &total), tags: vec!["upgrade-oversize-payload".into()] });
         }
         // systematic single cuts of a few short streams (every cut point)
         let n_sys = if ctx.thorough { 40 } else { 6 };
